@@ -450,3 +450,21 @@ def _derives_from_values(df: DataFlow, at: int, base: ast.AST, kw: str) -> bool:
                                    and st.targets[0].slice.lower is None and st.targets[0].slice.upper is None
                                    for st in fills)
     return False
+
+
+# ======================================================================================================================
+# Mutation-sweep round
+# ======================================================================================================================
+_inner_run_c35_sweep = run
+
+
+def run(ctx) -> None:  # noqa: F811
+    from ..rules import isinst
+
+    ctx.rule("R-ISINSTANCE", isinst.__doc__.split("—", 1)[1])
+    mod = ctx.repo.module(MOD)
+    funcs = [f for c in mod.classes.values() for defs in c.methods.values() for f in defs]
+    funcs += [f for defs in mod.functions.values() for f in (defs if isinstance(defs, list) else [defs])]
+    n_is = isinst.check(ctx, ctx.repo, funcs)
+    ctx.require(n_is >= 8, f"R-ISINSTANCE examined only {n_is} isinstance tests")
+    _inner_run_c35_sweep(ctx)
